@@ -179,7 +179,7 @@ theorem save_spec (w : World) (s : BState) :
       · rename_i n hn
         generalize hr : saveDescriptor w { s with bundling := false, bundleName := none } n s.objsRead = r
         have hkind : ∀ d ∈ r.docs, d.kind = .descriptor := by
-          subst hr; exact saveDescriptor_docs_kind ..
+          subst hr; exact saveDescriptor_docs_kind _ _ _ _
         have hrel : DRel s r := by
           subst hr
           have := DRel_saveDescriptor w { s with bundling := false, bundleName := none } n s.objsRead
@@ -202,5 +202,121 @@ theorem save_spec (w : World) (s : BState) :
               refine ⟨r.docs, [e], by simp [h1], hkind, Or.inr ⟨e, n, d, rfl, hb', hne', hn, h2, h3, h4, h5, h6, h7, ?_, ?_, h10⟩⟩
               · rw [h7]; exact h9
               · exact hrel (n, d) (aget_mem _ _ _ hd)
+
+/-! ### `DRel` for every operation, and the history invariant -/
+
+theorem DRel_save (w : World) (s : BState) : DRel s (save w s) := by
+  unfold save
+  split
+  · exact DRel_of_eq _ _ rfl
+  · split
+    · split <;> exact DRel_of_eq _ _ rfl
+    · split
+      · exact DRel_of_eq _ _ rfl
+      · rename_i n hn
+        have h1 := DRel_saveDescriptor w { s with bundling := false, bundleName := none } n s.objsRead
+        have : DRel { s with bundling := false, bundleName := none }
+            ((saveDescriptor w { s with bundling := false, bundleName := none } n s.objsRead).andThen fun s' =>
+              saveEvent s' n (mergeReadings s.readCache)) :=
+          DRel_andThen _ _ _ h1 (fun s' => DRel_of_eq _ _ (KeepsDesc.keeps_saveEvent s' n _))
+        exact this
+
+theorem DRel_monitor (w : World) (s : BState) (o : Obj) (n : Name) : DRel s (monitor w s o n) := by
+  unfold monitor
+  split
+  · exact DRel_of_eq _ _ rfl
+  · apply DRel_andThen
+    · exact DRel_of_eq _ _ (KeepsDesc.keeps_ensureCached w s o false)
+    · intro s'
+      apply DRel_andThen
+      · exact DRel_prepareStream w s' n _
+      · intro s''
+        split <;> exact DRel_of_eq _ _ rfl
+
+theorem DRel_configure (w : World) (s : BState) (o : Obj) : DRel s (configure w s o) := by
+  unfold configure
+  apply DRel_andThen
+  · exact DRel_of_eq _ _ (KeepsDesc.keeps_cacheReadConfig w s o)
+  · intro s'
+    apply DRel_foldl (g := fun s'' (nd : Name × Desc) =>
+      match aget s''.descriptors nd.1 with
+      | none => Res.fail s'' .keyError
+      | some d =>
+        if ahas d.objs o then
+          prepareStream w { s'' with descriptors := aerase s''.descriptors nd.1 } nd.1 d.objs
+        else Res.ok s'')
+    · exact DRel_of_eq _ _ rfl
+    · intro s'' nd
+      split
+      · exact DRel_of_eq _ _ rfl
+      · split
+        · intro x hx
+          rcases DRel_prepareStream w { s'' with descriptors := aerase s''.descriptors nd.1 } nd.1 _ x hx with h | h
+          · exact Or.inl (mem_aerase _ _ _ h)
+          · exact Or.inr h
+        · exact DRel_of_eq _ _ rfl
+
+theorem DRel_declareStream (w : World) (s : BState) (n : Name) (objs : List Obj) (c : Bool) :
+    DRel s (declareStream w s n objs c) := by
+  unfold declareStream
+  simp only
+  apply DRel_andThen
+  · exact DRel_of_eq _ _ (KeepsDesc.keeps_ensureAll w s _ c)
+  · intro s'
+    split
+    · exact DRel_of_eq _ _ rfl
+    · intro x hx
+      exact DRel_prepareStream w { s' with declared := declareAppend s'.declared (dedupKeys objs) n } n _ x hx
+
+theorem DRel_step (w : World) (s : BState) (op : Op) : DRel s (step w s op) := by
+  by_cases h : KeepsDesc.touches op = false
+  · exact DRel_of_eq _ _ (KeepsDesc.keeps_step w s op h)
+  · cases op <;> simp [KeepsDesc.touches] at h <;> simp only [step]
+    · exact DRel_save w s
+    · exact DRel_monitor w s _ _
+    · exact DRel_configure w s _
+    · exact DRel_declareStream w s _ _ _
+
+/-- every descriptor held by the bundler has been emitted -/
+def DInv (s : BState) (docs : List Doc) : Prop := ∀ nd ∈ s.descriptors, Documented docs nd.1 nd.2
+
+theorem DInv_step (w : World) (s : BState) (docs : List Doc) (op : Op) (h : DInv s docs) :
+    DInv (step w s op).st (docs ++ (step w s op).docs) := by
+  intro nd hm
+  rcases DRel_step w s op nd hm with h1 | h1
+  · exact (h nd h1).mono (by intro x hx; simp; exact Or.inl hx)
+  · exact h1.mono (by intro x hx; simp; exact Or.inr hx)
+
+theorem runFrom_append_docs (w : World) (s : BState) (pre post : List Op) :
+    traceDocs (runFrom w s (pre ++ post)).2 =
+      traceDocs (runFrom w s pre).2 ++ traceDocs (runFrom w (runFrom w s pre).1 post).2 := by
+  induction pre generalizing s with
+  | nil => simp [runFrom, traceDocs]
+  | cons op ops ih =>
+    simp only [List.cons_append, runFrom, traceDocs, List.flatMap_cons]
+    have := ih (step w s op).st
+    simp only [traceDocs] at this
+    rw [this, List.append_assoc]
+
+theorem runFrom_append_fst (w : World) (s : BState) (pre post : List Op) :
+    (runFrom w s (pre ++ post)).1 = (runFrom w (runFrom w s pre).1 post).1 := by
+  induction pre generalizing s with
+  | nil => simp [runFrom]
+  | cons op ops ih => simp only [List.cons_append, runFrom]; exact ih _
+
+theorem DInv_run (w : World) (s : BState) (docs : List Doc) (ops : List Op) (h : DInv s docs) :
+    DInv (runFrom w s ops).1 (docs ++ traceDocs (runFrom w s ops).2) := by
+  induction ops generalizing s docs with
+  | nil => simpa [runFrom, traceDocs] using h
+  | cons op ops ih =>
+    simp only [runFrom, traceDocs, List.flatMap_cons]
+    have := ih _ _ (DInv_step w s docs op h)
+    simp only [traceDocs] at this
+    rw [← List.append_assoc]; exact this
+
+theorem openRun_descriptors (cfg : BCfg) (u : Nat) (env : List (Obj × Config)) :
+    (openRun cfg u env).st.descriptors = [] := by
+  cases h2 : cfg.recordInterruptions <;>
+    simp [openRun, Res.andThen, resetR, Res.pure, resetCp, Res.ok, openRunResets, h2]
 
 end BlueskyVerif.Bundler
